@@ -958,4 +958,93 @@ theorem inplace_first_link_exposes_empty_manifest :
     · rw [h] at hr; cases hr
     · rw [hf] at hr; cases hb; cases hr
 
+/-! ## the effect-list shape crash safety rests on (`noEarlyFull`) -/
+
+theorem copyLoop_noEarlyFull (hash : Bytes → Digest) (d : Digest) (size : Nat) (hsz : size ≠ 0) (glen : Nat)
+    (hg : glen < size) (tail : List Eff) (ht : IsTail tail) :
+    ∀ (chunks : List Bytes) (seen : Bytes) (fin : SrcEnd), seen.length ≤ size →
+      noEarlyFull size (max glen seen.length) seen.length
+        (((copyLoop hash d size 0 seen chunks fin).1 ++ tail).map Eff.toSize) = true := by
+  have htail : ∀ (w : Nat), w ≤ size →
+      noEarlyFull size (max glen w) w (tail.map Eff.toSize) = true := by
+    intro w hw
+    rcases ht with rfl | rfl
+    · simp only [List.map_cons, List.map_nil, Eff.toSize, noEarlyFull, Bool.and_true, decide_eq_true_eq]; omega
+    · simp only [List.map_cons, List.map_nil, Eff.toSize, noEarlyFull, Bool.and_true, Bool.and_eq_true,
+        decide_eq_true_eq]
+      constructor <;> omega
+  intro chunks
+  induction chunks with
+  | nil =>
+    intro seen fin hs
+    have : (copyLoop hash d size 0 seen [] fin).1 = [] := by cases fin <;> simp [copyLoop]
+    rw [this, List.nil_append]; exact htail _ hs
+  | cons c cs ih =>
+    intro seen fin hs
+    unfold copyLoop
+    split
+    · exact ih seen fin hs
+    · next hc =>
+      split
+      · rw [List.nil_append]; exact htail _ hs
+      · split
+        · rw [List.nil_append]; exact htail _ hs
+        · next hne =>
+          have hcl : c.length ≠ 0 := by intro e; exact hc (List.eq_nil_of_length_eq_zero e)
+          have hle : seen.length + c.length ≤ size := by omega
+          have := ih (seen ++ c) fin (by simpa using hle)
+          simp only [List.length_append] at this
+          simp only [Nat.zero_add, List.cons_append, List.map_cons, Eff.toSize, noEarlyFull, hcl, if_false,
+            Bool.and_eq_true, decide_eq_true_eq]
+          refine ⟨by omega, ?_⟩
+          have e : max (max glen seen.length) (seen.length + c.length) = max glen (seen.length + c.length) := by omega
+          rw [e]; exact this
+
+/-- **Every store of the model has the shape**: in the effect list of `copyNamedFile`, for every source script and
+    every prior file, no effect brings the file to `size` before `size` data bytes have been written.  This is the
+    named hypothesis behind `single_writer_crash_safe`; the check evaluates the same predicate on the real syscall
+    trace of stores (L2 `trace-shape`), so a preallocating `ftruncate(size)` is flagged without any crash. -/
+theorem copyNamedEffs_noEarlyFull (hash : Bytes → Digest) (st : FileSt) (d : Digest) (size : Nat) (s : Script)
+    (hsz : size ≠ 0) :
+    noEarlyFull size (fileLen st) 0 ((copyNamedEffs hash st d size s).1.map Eff.toSize) = true := by
+  unfold copyNamedEffs
+  split
+  · rfl
+  · next hne =>
+    obtain ⟨tail, ht, hshape⟩ := afterStat_shape hash (statTrunc st size) d size s hsz
+    rw [hshape]
+    have hl := copyLoop_noEarlyFull hash d size hsz
+    cases st with
+    | none =>
+      have := hl 0 (by omega) tail ht s.chunks [] s.fin (by simp)
+      simp only [List.map_cons, Eff.toSize, noEarlyFull, statTrunc, fileLen, Option.map_none, Option.getD_none,
+        Bool.and_eq_true, decide_eq_true_eq]
+      exact ⟨by omega, by simpa using this⟩
+    | some f =>
+      have hf : f.length ≠ size := by intro e; apply hne; simp [e]
+      by_cases hgt : f.length > size
+      · have := hl 0 (by omega) tail ht s.chunks [] s.fin (by simp)
+        simp only [List.map_cons, Eff.toSize, noEarlyFull, statTrunc, hgt, decide_true, Bool.and_eq_true,
+          decide_eq_true_eq]
+        exact ⟨by omega, by simpa using this⟩
+      · have := hl f.length (by omega) tail ht s.chunks [] s.fin (by simp)
+        simp only [List.map_cons, Eff.toSize, noEarlyFull, statTrunc, hgt, decide_false, fileLen, Option.map_some,
+          Option.getD_some, Bool.and_eq_true, decide_eq_true_eq]
+        exact ⟨by omega, by simpa using this⟩
+
+/-- what the shape excludes (seeded change C08-J): a size-only effect before the data.  The list violates
+    `noEarlyFull`, and its cut after two data bytes is a full-size file with a zero tail: present, right size, wrong
+    content. -/
+theorem prealloc_violates_shape_and_safety :
+    let c : Bytes := [1, 2, 3, 4]
+    let es : List Eff := [.openCreate false, .truncate 4, .pwrite 0 [1, 2], .pwrite 2 [3, 4], .close]
+    noEarlyFull 4 0 0 (es.map Eff.toSize) = false ∧
+    Cut es [.openCreate false, .truncate 4, .pwrite 0 [1, 2]] ∧
+    run [.openCreate false, .truncate 4, .pwrite 0 [1, 2]] none = some [1, 2, 0, 0] ∧
+    ¬ Trusted idh (some [1, 2, 0, 0]) c 4 := by
+  refine ⟨by decide, ?_, by decide, ?_⟩
+  · exact Cut.next _ _ _ (Cut.next _ _ _ (Cut.next _ _ _ (Cut.stop _)))
+  · intro h
+    exact absurd (h [1, 2, 0, 0] rfl (by decide) (by decide)) (by decide)
+
 end OllamaVerif.C08
